@@ -1,6 +1,6 @@
 """C17 — file sink: documented open modes, and consumed means on disk."""
 from ..common import *
-from ..mir import peel, walk, show, self_field_path
+from ..mir import peel, walk, show, self_field_path, same_expr
 from .. import effects
 
 MODE_ADT = "file_sink::Mode"
@@ -356,11 +356,63 @@ def rule_r2(facts, col):
             col.ok("C17.R2", key, body.where(fl[0]), "write_all ok -> flush ok -> consumption acknowledged, on every path")
 
 
+TRUNCATING = {"take", "skip", "step_by", "take_while", "skip_while", "filter", "filter_map", "nth", "last", "map_while", "chunks_exact", "rchunks"}
+
+
+def rule_r3(facts, col, rule_id="C17.R3", scope=None):
+    """what is acknowledged is what was processed: where a block consumes the WHOLE read window (`consume(i.len())`), what it
+    does with the samples covers the whole window - no iterator adaptor or sub-slice that drops samples sits on the window,
+    unless it is bounded by the very count that is consumed (`i.iter().take(MAX)` with `consume(i.len())` throws the rest away)"""
+    from . import c09
+    for body in facts.impl_bodies(BLOCK_TRAIT, "work"):
+        if body.from_derive or not (scope(body) if scope is not None else (body.self_adt or "").startswith("file_sink::")):
+            continue
+        for cbb, ct in body.calls_to(effects.CONSUME):
+            w = c09.window_of(body.operand_expr(ct["args"][0]))
+            if not w:
+                continue
+            cnt = body.operand_expr(ct["args"][1])
+            if not (c09.len_of_window(cnt) == w):
+                continue        # a partial consume: which part was processed is a value question (C08.R3 / R5 look at some forms)
+            key = "%s:consume(%s)" % (body.q, w[0])
+            bad = None
+            for bb, t in body.calls():
+                nm = t["f"].get("name")
+                q = t["f"].get("q") or ""
+                if not t["args"]:
+                    continue
+                recv = body.operand_expr(t["args"][0])
+                on_window = any(c09.window_of(x) == w for x in walk(recv))
+                if not on_window:
+                    continue
+                if not (cbb in body.reachable(bb) or bb in body.reachable(cbb)):
+                    continue        # another arm of a state machine: not the same call's window walk
+                if nm in TRUNCATING and (q.startswith("std::iter::") or q.startswith("core::iter::") or "[T]::" in q or "slice" in q):
+                    if nm == "take" and len(t["args"]) == 2 and same_expr(body.operand_expr(t["args"][1]), cnt):
+                        continue
+                    bad = (bb, "`.%s(..)` on the window's samples" % nm)
+                elif nm in ("index", "index_mut") and len(t["args"]) == 2:
+                    r = peel(body.operand_expr(t["args"][1]), through_try=False)
+                    if r.k == "agg" and (r.adt or "").startswith("std::ops::Range") and r.adt != "std::ops::RangeFull":
+                        if r.adt == "std::ops::RangeTo" and same_expr(r.args[0], cnt):
+                            continue
+                        bad = (bb, "a sub-slice of the window")
+            if bad:
+                col.bad(rule_id, key, body.where(bad[0]),
+                        "work() consumes the whole window of self.%s (%s) but goes through its samples with %s that is not bounded by "
+                        "that same count: the samples beyond it are acknowledged as consumed without ever having been processed "
+                        "(dropped from the output / never written to the file)" % (w[0], show(cnt)[:40], bad[1]), {})
+            else:
+                col.ok(rule_id, key, body.where(cbb), "the whole consumed window is walked: no dropping adaptor or sub-slice on it")
+
+
 def run(ctx):
     facts = ctx.facts("default")
     ctx.anchor("C17", MODE_ADT in facts.adts, "enum file_sink::Mode")
     rule_r1(facts, ctx)
     rule_r2(facts, ctx)
+    rule_r3(facts, ctx)
+    ctx.floor("C17.R3", 1, "FileSink::work's consume")
     ctx.floor("C17.R1", 6, "3 modes x {FileSink::new, NoCopyFileSink::new}")
     ctx.floor("C17.R2", 2, "FileSink::work, NoCopyFileSink::work")
     ctx.explain("C17: abstract interpretation of the OpenOptions builder over the finite flag set per `match mode` arm "
